@@ -11,6 +11,10 @@ from .. import common, identlib
 from ..gen import cfggen, edits
 from ..translate import argflags, hashflags, hashsrc
 
+# class libraries of this check declare nested-container defaults (`[[]]`, `{"k": []}`) and the neutral edits add meta-flagged
+# members to inner containers at any depth (seeded change C02f: `_is_default` stopped dropping ignored members below the top level)
+cfggen.NESTED_DEFAULTS = True
+
 PROP = "C02"
 MODULES = ["XpmVerif.Properties.C02", "XpmVerif.Properties.C02Decl", "XpmVerif.Properties.C02Env", "XpmVerif.Properties.C02Inherit", "XpmVerif.Proofs.ArgDecl", "XpmVerif.Properties.HashSrc"]
 
